@@ -624,7 +624,7 @@ func (e *RsEnc) fault(kind string) (b []byte, cuts []int) {
 		b = append(b, EncodeChunk(&Chunk{Fmt: 0, Csid: 12, Len: 4, Type: 3}, ack)...)
 		return
 	case "shrink": // a new, shorter message on the chunk stream on which lenmax left a message unfinished
-		return EncodeChunk(&Chunk{Fmt: 0, Csid: 9, Len: 4, Type: 3}, ack), nil
+		return e.Split(9, 3, 0, 0, ack)
 	}
 	return nil, nil
 }
